@@ -537,9 +537,20 @@ def u_probe_lifecycle(c):
         st, r = run(it, it.getattr(prb, "_emit"), [d1])
         c.prove("exit-with-failing-subscriber/silent-afterwards", st == "ok" and events == [])
         return
+    # an event caused while the stream is being completed (a subscriber that calls the probed function when it is told the result) is not
+    # part of the active period: no stage that is still waiting for its completion receives it
+    orig_done = o1.attrs["on_completed"]
+
+    def done_then_emit(it_, a, k):
+        r_ = it_.call(orig_done, a, k)
+        it_.call(it_.getattr(prb, "_emit"), [d1], {})
+        return r_
+
+    o1.attrs["on_completed"] = SummaryFn("on_completed", done_then_emit)
     st, r = run(it, it.getattr(prb, "__exit__"), args)
     c.prove("exit/no-raise", st == "ok" and not it.truth(r))
-    c.prove("exit/completes-each-observer-once-then-untools", events == [("o1", "completed"), ("o2", "completed"), ("autotool", sel, True)])
+    c.prove("exit/completes-each-observer-once-then-untools", events == [("o1", "completed"), ("o2", "completed"), ("autotool", sel, True)],
+            note=str([e[:2] for e in events]))
     c.prove("exit/overlay-and-registration-removed", var.value is None and prb not in gp and prb.fields["_observers"] == [])
     del events[:]
     # --- silent afterwards
@@ -552,6 +563,10 @@ def u_probe_lifecycle(c):
     # period in which nothing was delivered -- removes no tooling a second time and does not fail
     o3 = _observer(it, "o3", events)
     it.call(make, [o3, None], {})
+    # ... and what is emitted after deactivation (an activation that began while the probe was active and goes on afterwards: a generator)
+    # does not reach a stage attached afterwards either
+    st, r = run(it, it.getattr(prb, "_emit"), [d1])
+    c.prove("after-exit/silent-for-stages-attached-afterwards", st == "ok" and events == [], note=str([e[:2] for e in events]))
     snap = (var.value, set(gp))
     st, r = run(it, it.getattr(prb, "__exit__"), [None, None, None])
     c.prove("second-deactivation/does-nothing-and-does-not-fail", st == "ok" and events == [] and var.value is snap[0] and set(gp) == snap[1],
@@ -670,6 +685,9 @@ def u_overridable_emit(c):
     absent = it.models.absent(it)
     cap = mk_obj(it, "ptera.interpret", "Capture", element=None, capture="a", names=["a"], values=[c.val("v0")])
     d1 = {"a": cap}
+    # a probe that is not active overrides nothing (an activation that began while it was, resumed after it was deactivated)
+    c.prove("new-probe-is-not-live", prb.fields.get("_live") is False)
+    prb.fields["_live"] = True  # the active period (what _enter does; the life cycle is the unit Probe.lifecycle)
     st, r0 = run(it, it.getattr(prb, "_emit"), [d1])
     c.prove("no-subscriber/declines", st == "ok" and r0 is absent)
     kw = bool(c.choose(2, "koverride"))
@@ -686,6 +704,7 @@ def u_overridable_emit(c):
     consts = [None, 0, False, "", 10]
     kk = c.choose(len(consts) + 1, "constant-setter")
     prb2 = it.call(OP, [sel], {})
+    prb2.fields["_live"] = True
     if kk < len(consts):
         st, _ = run(it, it.getattr(prb2, "override"), [consts[kk]])
         c.prove("override-constant/subscribes", st == "ok" and len(prb2.fields["_observers"]) == 1)
